@@ -10,6 +10,9 @@ pub mod c06;
 pub mod c07;
 pub mod c08;
 pub mod c09;
+pub mod c10;
+pub mod c11;
+pub mod c12;
 pub mod common;
 
 pub struct Prop {
@@ -33,6 +36,9 @@ pub static PROPS: &[Prop] = &[
     Prop { id: "C07", run: c07::run, meta: c07::meta, single_process: false, budget_quick_s: 120, budget_thorough_s: 900, handles_foreign_panics: false },
     Prop { id: "C08", run: c08::run, meta: c08::meta, single_process: false, budget_quick_s: 120, budget_thorough_s: 900, handles_foreign_panics: false },
     Prop { id: "C09", run: c09::run, meta: c09::meta, single_process: false, budget_quick_s: 120, budget_thorough_s: 900, handles_foreign_panics: false },
+    Prop { id: "C10", run: c10::run, meta: c10::meta, single_process: false, budget_quick_s: 120, budget_thorough_s: 900, handles_foreign_panics: false },
+    Prop { id: "C11", run: c11::run, meta: c11::meta, single_process: false, budget_quick_s: 120, budget_thorough_s: 900, handles_foreign_panics: false },
+    Prop { id: "C12", run: c12::run, meta: c12::meta, single_process: false, budget_quick_s: 120, budget_thorough_s: 900, handles_foreign_panics: false },
 ];
 
 pub fn find(id: &str) -> Option<&'static Prop> {
